@@ -329,6 +329,9 @@ func doReplay(path string) int {
 	f := &Found{Spec: spec, Hist: rf.History, V: rf.Violation}
 	v, same := rerun(f)
 	fmt.Printf("replay of %s\n  cfg: %s\n  history: %s\n", path, rf.Cfg, histString(rf.History))
+	if spec.Label != "" {
+		fmt.Printf("  spec %s: %s\n", spec.Name, spec.Label)
+	}
 	if v == nil {
 		fmt.Println("  result: no violation (the property holds on this history now)")
 		return 0
